@@ -13,9 +13,7 @@ Definition level_eqb (a b : level) : bool :=
 Definition is_py_space (c : ascii) : bool :=
   let n := nat_of_ascii c in (Nat.leb 9 n && Nat.leb n 13) || Nat.eqb n 32 || (Nat.leb 28 n && Nat.leb n 31).
 Definition str_is_blank (s : string) : bool := forallb is_py_space (chars s).     (* len(s.strip()) == 0 *)
-Fixpoint rstrip_set (cs : list ascii) (l : list ascii) : list ascii :=   (* on the reversed string *)
-  match l with c :: r => if existsb (Ascii.eqb c) cs then rstrip_set cs r else l | [] => [] end.
-Definition rstrip_chars (cs : string) (s : string) : string := of_chars (rev (rstrip_set (chars cs) (rev (chars s)))).
+(* rstrip_set, rstrip_chars (s.rstrip(chars)): see Base.v *)
 (* s[0:s.rindex('-')] ; None when there is no dash *)
 Fixpoint before_last_dash_aux (l acc : list ascii) (best : option (list ascii)) : option (list ascii) :=
   match l with
